@@ -304,6 +304,9 @@ func Generate(seed uint64, prop, tier string) *Plan {
 		if prop == "C07" && r.Chance(1, 5) || r.Chance(1, 25) {
 			cp.DupKeep = true
 		}
+		if prop == "C15" && c.LB == 2 && r.Chance(1, 5) || r.Chance(1, 60) {
+			cp.Magic = r.Range(1, 9)
+		}
 		// handler script
 		nt := r.Range(0, 6)
 		for j := 0; j < nt; j++ {
